@@ -126,6 +126,11 @@ type Event struct {
 	TimeoutH specqbft.Height
 	TimeoutR specqbft.Round
 	NoInst   bool
+	// TargetChanged: the timeout addressed a stored instance of another height and that instance's state root differs
+	// afterwards (only when Sim.WantRoots)
+	TargetChanged bool
+	// TargetUndecided: the timeout addressed a stored, undecided instance of another height
+	TargetUndecided bool
 }
 
 type Snapshot struct {
@@ -341,11 +346,36 @@ func (s *Sim) Timeout(id spectypes.OperatorID, kind string) *Event {
 			return nil
 		}
 		h--
+	case "prev-height", "prev-height-next":
+		// an event queued for the previous height's instance (still stored, stopped by the start of this height) that is
+		// handled only now: for that instance's own current round, or the one after
+		if s.Height == 0 {
+			return nil
+		}
+		h = s.Height - 1
+		old := o.Ctrl.StoredInstances.FindInstance(h)
+		if old == nil {
+			return nil
+		}
+		r = old.State.Round
+		if kind == "prev-height-next" {
+			r++
+		}
 	}
 	data, _ := json.Marshal(ssvtypes.TimeoutData{Height: h, Round: r})
 	ev := Event{Kind: "timeout", Op: id, Before: s.Snap(id), TimeoutH: h, TimeoutR: r}
-	ev.NoInst = o.Ctrl.StoredInstances.FindInstance(h) == nil
+	target := o.Ctrl.StoredInstances.FindInstance(h)
+	ev.NoInst = target == nil
+	ev.TargetUndecided = target != nil && h != s.Height && !target.State.Decided
+	var targetRoot [32]byte
+	if s.WantRoots && target != nil && h != s.Height {
+		targetRoot, _ = target.State.GetRoot()
+	}
 	ev.Err = o.Ctrl.OnTimeout(logger, ssvtypes.EventMsg{Type: ssvtypes.Timeout, Data: data})
+	if s.WantRoots && target != nil && h != s.Height {
+		after, _ := target.State.GetRoot()
+		ev.TargetChanged = after != targetRoot
+	}
 	ev.Emitted = s.collect(o)
 	ev.After = s.Snap(id)
 	if ev.After.Round > s.MaxRound {
